@@ -1167,6 +1167,17 @@ def c12_families(tier, seed, ids=None, ck=None):
     if tier == "quick":
         lg = lg[seed % 3::3]
     out.append(("logical operators with an observable right operand x contexts", gens.context_sessions(lg, first_id=1900000, ctx_filter={"top", "midblock", "fntail", "arg", "assign", "elem", "ifcond", "ifcondmid", "whilecond", "ifelsefn", "ifbody", "forbody", "yield"}), ("value",)))
+    # chains of one operator with literal operands behind a variable operand (the shapes a constant folder or a re-association would
+    # touch): the value of `e op k1 op k2` is that of `t = e op k1` then `t op k2`, whatever e holds
+    ch = []
+    lits = [(I(1), I(1)), (I(3), I(7)), (Fl(5, 1), I(2)), (I(2), Fl(25, 2)), (I(30000), I(30000))]
+    for op in ("+", "-", "*", "/", "%", "<<", "&"):
+        for k1, k2 in lits:
+            for e in (N("x"), N("fx"), N("u"), St("s"), N("a"), Fl(15, 1), I(6)):
+                ch += [bin_(op, bin_(op, e, k1), k2), bin_(op, k1, bin_(op, k2, e)), bin_(op, bin_(op, k1, k2), e), bin_(op, bin_(op, bin_(op, e, k1), k2), k1), bin_("==", bin_(op, bin_(op, e, k1), k2), bin_(op, bin_(op, e, k1), k2))]
+    if tier == "quick":
+        ch = ch[seed % 5::5]
+    out.append(("chains of one operator with literal operands x contexts", gens.context_sessions(ch, first_id=1950000, ctx_filter={"top", "fntail", "arg", "assign", "elem", "ifcond", "forbody", "yield", "opl"}), ("value",)))
     ids = Ids(2000000)
     # rewrite pairs of the property text
     rw = []
